@@ -329,8 +329,15 @@ pub fn msg_effect(iface: &Iface, m: &Msg) -> MsgEffect {
                 }
                 e.pre.push(eff);
             }
-            Some(_) => {
-                if !(u.abs || u.is_common()) {
+            Some(at) => {
+                // after a unit whose *header* is valid (wrong parameter count, unconvertible
+                // parameter, handler error) the path is defined by that header; after a syntax
+                // error or an undefined header it is not
+                let header_valid = matches!(
+                    e.pre[at].fault,
+                    Some(FaultKind::Arity) | Some(FaultKind::Unconvertible) | Some(FaultKind::HandlerError)
+                );
+                if !(u.abs || u.is_common()) && !header_valid {
                     e.post_depends_on_context = true;
                 }
                 e.post.push(eff);
